@@ -139,6 +139,44 @@ def path_names(root, argv_path):
     return names
 
 
+def plain_program(ctx, which):
+    """the library used as a program uses it, WITHOUT the hooks: a child process with the real os.Stderr, os.Stdout and
+    os.Exit (harness/plain); exit status and what went to which descriptor are judged from the property texts"""
+    import subprocess
+    binary = os.path.join(core.HARNESS, "plainprog")
+    rows = {
+        "C07": [(["0", "ret", "x"], 0, "ran x|after|returned: nil|", None),
+                (["0", "ret"], 40, "returned: incorrect usage|", "reject"),
+                (["1", "ret"], 2, "", "reject"), (["1", "ret", "-z", "x"], 2, "", "reject"), (["1", "ret", "x", "y"], 2, "", "reject"),
+                (["2", "ret"], 2, "", "reject+panic"), (["1", "ret", "x"], 0, "ran x|after|returned: nil|", None)],
+        "C14": [(["1", "ret", "-h"], 0, "", "help"), (["1", "ret", "x", "--help"], 0, "", "help"), (["0", "ret", "-h"], 0, "returned: nil|", "help"),
+                (["1", "ret", "-V"], 0, "", "version"), (["1", "ret", "--version", "junk", "-z"], 0, "", "version"), (["0", "ret", "-V"], 0, "returned: nil|", "version")],
+        "C05": [(["1", "exit7", "x"], 7, "after|", None), (["0", "exit7", "x"], 7, "after|", None), (["1", "ret", "x"], 0, "ran x|after|returned: nil|", None)],
+    }[which]
+    n = 0
+    for argv, want_rc, want_out, kind in rows:
+        p = subprocess.run([binary] + argv, stdout=subprocess.PIPE, stderr=subprocess.PIPE, text=True, timeout=60)
+        n += 1
+        out = p.stdout.replace("\n", "|")
+        err = p.stderr
+        ok = p.returncode == want_rc and out == want_out
+        if kind is None:
+            ok = ok and err == ""
+        elif kind.startswith("reject"):
+            ok = ok and err.startswith("Error: ") and "\nUsage: plain [-f] X\n" in err and ("panic:" in err) == kind.endswith("panic")
+        elif kind == "help":
+            ok = ok and "Usage: plain [-f] X" in err and "Error:" not in err
+        elif kind == "version":
+            ok = ok and err == "v1.2\n"
+        ctx.count({"op": "plain", "argv": argv})
+        if not ok:
+            ctx.violation("process", "a program without hooks, invoked as %r: exit status %d, output stream %r, error stream %r; expected status %d, "
+                          "output %r and %s on the error stream" % (argv, p.returncode, out[:120], err[:160], want_rc, want_out,
+                                                                   {None: "nothing", "help": "the help", "version": "the version string"}.get(kind, "the error and the usage")),
+                          case={"op": "plain", "argv": argv})
+    ctx.stream("a program without the hooks (real descriptors and exit status)", n)
+
+
 def check_C05(ctx):
     cases = []
     meta = {}
@@ -178,6 +216,7 @@ def check_C05(ctx):
         meta[id(c)] = (d, hooks)
     res = correspond(ctx, cases, ["outcome", "trace"], "hook assignments")
     ctx.stream("hook assignments", 0, exhaustive_depths=depths, exhaustive_cases=nex)
+    plain_program(ctx, "C05")
     for c in cases:
         d, hooks = meta[id(c)]
         a, _ = res[c["id"]]
